@@ -55,7 +55,12 @@ def cmd_discover(args):
     # Load merchant rules
     merchants_file = config.get('_merchants_file')
     if merchants_file and os.path.exists(merchants_file):
-        rules = get_all_rules(merchants_file, match_mode=rule_mode)
+        from ..merchant_engine import MerchantParseError
+        try:
+            rules = get_all_rules(merchants_file, match_mode=rule_mode)
+        except MerchantParseError as e:
+            print(f"Error: cannot load {merchants_file}: {e}", file=sys.stderr)
+            sys.exit(1)
     else:
         rules = get_all_rules(match_mode=rule_mode)
 
